@@ -14,6 +14,7 @@ import (
 	"os"
 	"sort"
 	"strings"
+	"time"
 
 	"verifharness/vh"
 
@@ -293,11 +294,16 @@ func joinLines(r *vh.Rng, pool []string, seps []string) []byte {
 // params for the stateful entries
 func paramsFor(e int, r *vh.Rng) []uint64 {
 	switch e {
-	case EDiscovery, ESession:
-		if e == ESession && r.Chance(5, 6) || e == EDiscovery && r.Chance(1, 3) {
+	case EDiscovery:
+		if r.Chance(1, 3) {
 			return []uint64{1}
 		}
 		return []uint64{0}
+	case ESession:
+		if r.Chance(5, 6) {
+			return []uint64{1, uint64(r.Intn(2))}
+		}
+		return []uint64{0, 0}
 	case ELcpRecv, EIpcpRecv, EIp6cpRecv:
 		st := r.Intn(10)
 		if e == ELcpRecv && r.Chance(1, 3) {
@@ -464,6 +470,15 @@ func mutations(b []byte, r *vh.Rng, budget int) [][]byte {
 	return out
 }
 
+func isPure(e int) bool {
+	for _, x := range pureEntries {
+		if x == e {
+			return true
+		}
+	}
+	return false
+}
+
 func tailFor(e int, r *vh.Rng) []byte {
 	if e == EPADT || e == EDiscovery || e == ESession {
 		switch r.Intn(3) {
@@ -483,6 +498,22 @@ var statefulEntries = []int{EDiscovery, ESession, ELcpRecv, EIpcpRecv, EIp6cpRec
 
 func main() {
 	cfg := vh.ParseFlags()
+	// watchdog: a decoder that does not return is a finding (HANG), not a stuck check
+	go func() {
+		for {
+			time.Sleep(250 * time.Millisecond)
+			curMu.Lock()
+			d, since := curDesc, curSince
+			curMu.Unlock()
+			if d != nil && time.Since(since) > 10*time.Second {
+				coq := fmt.Sprintf("(Call %d %s %s %s, OHang)", d.E, nlist(d.P), vh.Bytes(d.D), vh.Bytes(d.T))
+				hang := vh.Case{Coq: "[" + coq + "]", Desc: *d, Tags: []string{"entry:" + entryNames[d.E], "outcome:HANG", "gen:watchdog"}}
+				vh.Emit(cfg, "hang", header, footer, []vh.Case{hang}, map[string]interface{}{"note": "the driver stopped here: this call did not return within 10 s"})
+				os.Exit(0)
+			}
+		}
+	}()
+
 	if cfg.Replay != "" {
 		var d Desc
 		if err := vh.LoadReplay(cfg.Replay, &d); err != nil {
@@ -545,7 +576,7 @@ func main() {
 		case EDiscovery:
 			ps = [][]uint64{{0}}
 		case ESession:
-			ps = [][]uint64{{1}}
+			ps = [][]uint64{{1, 1}}
 		case ELcpRecv, EIpcpRecv, EIp6cpRecv:
 			ps = [][]uint64{{9, lastIDFor(e, 9)}}
 		case EAuthRecv:
@@ -563,11 +594,11 @@ func main() {
 			for l := 0; l <= maxLen; l++ {
 				exh = append(exh, run(Desc{E: e, P: p, X: &Exh{Len: l}}))
 			}
-			if thorough { // length 3: all strings on the implementation, four first-byte blocks through the Model
+			if thorough { // length 3: four first-byte blocks through the Model; all 2^24 strings on the implementation for the stateless decoders
 				for k := 0; k < 4 && e != ESession; k++ {
 					exh = append(exh, run(Desc{E: e, P: p, X: &Exh{Len: 3, Prefix: []byte{byte(r.Intn(256))}}}))
 				}
-				if e != ESession && e != EDiscovery {
+				if isPure(e) {
 					_, bad := exhaust(e, p, Exh{Len: 3})
 					implOnly += 1 << 24
 					for _, b := range bad {
@@ -589,7 +620,7 @@ func main() {
 	// 2. structured + malformed streams
 	nb, sample, nrand := 6, 20, 30
 	if thorough {
-		nb, sample, nrand = 60, 40, 400
+		nb, sample, nrand = 40, 40, 300
 	}
 	for _, e := range allE {
 		for b := 0; b < nb; b++ {
